@@ -7,6 +7,7 @@ import PyModeS.Properties.C02
 import PyModeS.Properties.C07
 import PyModeS.Properties.C08
 import PyModeS.Tie.Common
+import PyModeS.Tie.Icao
 namespace PyModeS.CGen
 open PyModeS PyModeS.Py PyModeS.CRC PyModeS.Spec
 
